@@ -7,6 +7,7 @@
 #include <sstream>
 #include <fstream>
 #include <chrono>
+#include <signal.h>
 
 namespace hz {
 
@@ -137,6 +138,14 @@ bool read_tape_file(const std::string &path, std::vector<uint32_t> &out, Bytes &
 	return true;
 }
 
+static void on_alarm(int)
+{
+	static const char msg[] = "\nCASE-TIMEOUT the case did not finish within its wall-clock limit\n";
+	if (write(2, msg, sizeof msg - 1)) {}
+	if (write(1, msg, sizeof msg - 1)) {}
+	_exit(14);
+}
+
 static std::string arg(int argc, char **argv, const char *name, const char *dflt)
 {
 	for (int i = 2; i + 1 < argc; i++) if (!strcmp(argv[i], name)) return argv[i + 1];
@@ -159,7 +168,9 @@ int harness_main(int argc, char **argv, PropDef &def)
 		if (!read_tape_file(argv[2], v, raw, is_bytes, &is_raw)) { fprintf(stderr, "cannot read %s\n", argv[2]); return 2; }
 		Tape t = is_bytes ? Tape(raw.data(), raw.size()) : Tape(v);
 		t.rawmode = is_raw;
+		if (def.case_timeout_s) { signal(SIGALRM, on_alarm); alarm(def.case_timeout_s); }
 		CaseResult r = def.run(t);
+		alarm(0);
 		printf("%s\n", r.render.c_str());
 		if (!r.ok) { printf("REPLAY-FAIL signature=%s why=%s\n", r.signature.c_str(), r.why.c_str()); return 1; }
 		printf("REPLAY-PASS nontrivial=%d\n", (int)r.nontrivial);
@@ -221,7 +232,9 @@ int harness_main(int argc, char **argv, PropDef &def)
 		}
 		Tape t(raw);
 		t.rawmode = true;
+		if (def.case_timeout_s) { signal(SIGALRM, on_alarm); alarm(def.case_timeout_s); }
 		CaseResult r = def.run(t);
+		alarm(0);
 		if (!have_fail) st.add(r, t);
 		if (!r.ok) {
 			if (!have_fail) tfail = std::chrono::steady_clock::now();
